@@ -233,13 +233,15 @@ def run(prog: Program, rep, thorough: bool) -> None:
     params = row.positional
     want_params = ['time', 'range_vector', 'velocity_vector', 'velocity', 'mach', 'spin_drift', 'look_angle',
                    'density_factor', 'drag', 'weight', 'flag']
-    if len(params) != len(want_params):
+    if len(params) < len(want_params):
         raise AnalysisError(f'create_trajectory_row parameters changed: {params}')
     # roles by position: a renamed parameter keeps its role
     by_role = {'time': S('t'), 'range_vector': P, 'velocity_vector': V, 'velocity': S('v'), 'mach': S('a'),
                'spin_drift': S('spin'), 'look_angle': S('L'), 'density_factor': S('rho'), 'drag': S('drag'),
                'weight': S('w'), 'flag': S('flag')}
     kw = {actual: by_role[role] for actual, role in zip(params, want_params)}
+    for more in params[len(want_params):]:
+        kw[more] = S(f'extra_{more}')       # a further parameter is an unknown of its own: no column of the statement depends on it
     try:
         r, st = ev.call_value(row, [], kw, st=st)
     except Undecided as exc:
